@@ -133,6 +133,23 @@ func c18Sites(c *Ctx) []panicSite {
 						s.Status, s.Why = proveMapElem(f, lk, in)
 					}
 				}
+				// dereference of a pointer that came out of a JSON decode (an element of a decoded []*T, a pointer field of a
+				// decoded struct): `null` in the input makes it nil
+				if xp := ssax.Path(x.X); strings.HasPrefix(xp, "json(") {
+					if _, isPtr := x.X.Type().Underlying().(*types.Pointer); isPtr {
+						// only a pointer VALUE read from the decoded data can be nil; &x[i] and &s.f are address computations
+						if isLoadedPointer(x.X) {
+							s := mk("decoded-deref", in, trimPath(npath(x.X))+"."+ssax.FieldOf(x).Name())
+							s.Status, s.Why = proveNonNil(f, x.X, in)
+							if s.Status != "proved" && provedByValidationLoop(f, x.X, in) {
+								s.Status, s.Why = "proved", "behind a loop over the same decoded list that rejects a nil element"
+							}
+							if s.Status != "proved" {
+								s.Why = "the pointer comes from decoded input (a JSON null leaves it nil) and is dereferenced without a nil check"
+							}
+						}
+					}
+				}
 				// dereference of one of the three per-machine payload pointers (nil until their machine is entered)
 				if xp := ssax.Path(x.X); isPayloadPtr(xp) {
 					if _, isPtr := x.X.Type().Underlying().(*types.Pointer); isPtr {
@@ -146,6 +163,9 @@ func c18Sites(c *Ctx) []panicSite {
 					s := mk("must-call", in, lastSeg(shortID(id)))
 					s.Status, s.Why = "unproved", "callee panics on invalid input"
 				}
+				if id == "encoding/json.Unmarshal" && len(x.Common().Args) == 2 {
+					c18DecodedEscapes(c, f, x, mk)
+				}
 				if id == "log.Fatal" || id == "log.Fatalf" || id == "log.Fatalln" || id == "os.Exit" || id == "log.Panic" || id == "log.Panicf" {
 					s := mk("exit", in, id)
 					s.Status, s.Why = "unproved", "terminates the process"
@@ -154,6 +174,234 @@ func c18Sites(c *Ctx) []panicSite {
 		})
 	}
 	return sites
+}
+
+// provedByValidationLoop: v is an element P[..] of a decoded list P; the use lies behind the normal exit of an earlier
+// loop `for _, e := range P { if e == nil { return … } }` over the same list.
+func provedByValidationLoop(f *ssa.Function, v ssa.Value, at ssa.Instruction) bool {
+	vp := npath(v)
+	i := strings.LastIndex(vp, "[")
+	if i < 0 || !strings.HasSuffix(vp, "]") {
+		return false
+	}
+	list := vp[:i]
+	for _, cd := range ssax.Conds(f) {
+		if cd.Op != token.EQL && cd.Op != token.NEQ {
+			continue
+		}
+		for _, pr := range [][2]ssa.Value{{cd.X, cd.Y}, {cd.Y, cd.X}} {
+			if !ssax.IsNilConst(ssax.Resolve(pr[1])) || npath(pr[0]) != list+"[i]" {
+				continue
+			}
+			// the nil edge must not reach the use
+			ne, _ := cd.EdgeWhere(token.EQL)
+			first := ne.From.Succs[ne.Succ].Instrs[0]
+			if first == at || ssax.ReachableFrom(f, first, at, nil, nil) {
+				continue
+			}
+			// the loop this test sits in: header `idx < len(list)` from whose body the test is reached and which the test
+			// reaches again; the use must lie behind the header's exit edge
+			for _, h := range ssax.Conds(f) {
+				if h.Op != token.LSS {
+					continue
+				}
+				la := lenArg(h.Y)
+				if la == nil || npath(la) != list {
+					continue
+				}
+				body := h.If.Block().Succs[0]
+				if len(body.Instrs) == 0 || !(body == cd.If.Block() || ssax.ReachableFrom(f, body.Instrs[0], cd.If, nil, []ssa.Instruction{h.If})) {
+					continue
+				}
+				if !ssax.ReachableFrom(f, cd.If, h.If, nil, nil) {
+					continue
+				}
+				if !ssax.ReachableAvoiding(f, at, []ssax.Edge{{From: h.If.Block(), Succ: 1}}, nil) {
+					return true
+				}
+			}
+		}
+	}
+	return false
+}
+
+func isLoadedPointer(v ssa.Value) bool {
+	switch x := v.(type) {
+	case *ssa.UnOp:
+		if x.Op != token.MUL {
+			return false
+		}
+		switch x.X.(type) {
+		case *ssa.IndexAddr, *ssa.FieldAddr:
+			return true
+		case *ssa.Alloc:
+			// a local copy of such a pointer (range value variable)
+			if src := ssax.LoadSource(x); src != nil {
+				return isLoadedPointer(src)
+			}
+		}
+	case *ssa.Lookup, *ssa.Extract, *ssa.Index, *ssa.Field:
+		return true
+	case *ssa.Phi:
+		for _, e := range x.Edges {
+			if isLoadedPointer(e) {
+				return true
+			}
+		}
+	}
+	return false
+}
+
+// c18DecodedEscapes: a struct decoded from input whose type has pointer fields to structs (kyber's Deal.Deal) and which is
+// then handed to other code: the receiver dereferences the field, so the field must have been tested against nil before
+// the value escapes.
+func c18DecodedEscapes(c *Ctx, f *ssa.Function, um ssa.CallInstruction, mk func(kind string, in ssa.Instruction, expr string) *panicSite) {
+	mi, ok := um.Common().Args[1].(*ssa.MakeInterface)
+	if !ok {
+		return
+	}
+	al, ok := mi.X.(*ssa.Alloc)
+	if !ok {
+		return
+	}
+	if sl, isSlice := deref(al.Type()).Underlying().(*types.Slice); isSlice {
+		c18DecodedSliceEscapes(c, f, um, al, sl, mk)
+		return
+	}
+	st, ok := deref(al.Type()).Underlying().(*types.Struct)
+	if !ok {
+		return
+	}
+	for i := 0; i < st.NumFields(); i++ {
+		fld := st.Field(i)
+		pt, isPtr := fld.Type().Underlying().(*types.Pointer)
+		if !isPtr || !fld.Exported() {
+			continue
+		}
+		if _, isStruct := pt.Elem().Underlying().(*types.Struct); !isStruct {
+			continue
+		}
+		var escapes []ssa.Instruction
+		if al.Referrers() != nil {
+			for _, r := range *al.Referrers() {
+				switch x := r.(type) {
+				case ssa.CallInstruction:
+					if x != um {
+						escapes = append(escapes, r)
+					}
+				case *ssa.UnOp:
+					if x.Referrers() != nil {
+						for _, rr := range *x.Referrers() {
+							if ci, isCall := rr.(ssa.CallInstruction); isCall {
+								escapes = append(escapes, ci.(ssa.Instruction))
+							}
+						}
+					}
+				}
+			}
+		}
+		if len(escapes) == 0 {
+			continue
+		}
+		var edges []ssax.Edge
+		for _, cd := range ssax.Conds(f) {
+			if cd.Op != token.EQL && cd.Op != token.NEQ {
+				continue
+			}
+			for _, pr := range [][2]ssa.Value{{cd.X, cd.Y}, {cd.Y, cd.X}} {
+				if !ssax.IsNilConst(ssax.Resolve(pr[1])) {
+					continue
+				}
+				if ld, isLd := pr[0].(*ssa.UnOp); isLd {
+					if fa, isFA := ld.X.(*ssa.FieldAddr); isFA && fa.X == ssa.Value(al) && fa.Field == i {
+						e, _ := cd.EdgeWhere(token.NEQ)
+						edges = append(edges, e)
+					}
+				}
+			}
+		}
+		for _, esc := range escapes {
+			s := mk("decoded-escape", esc, trimPath(npath(al))+"."+fld.Name())
+			if len(edges) > 0 && !ssax.ReachableAvoiding(f, esc, edges, nil) {
+				s.Status, s.Why = "proved", "the decoded pointer field is tested against nil before the value is handed on"
+			} else {
+				s.Status, s.Why = "unproved", "the decoded value is handed on with its pointer field "+fld.Name()+" possibly nil (a JSON document without that member): the receiver dereferences it"
+			}
+		}
+	}
+}
+
+// c18DecodedSliceEscapes: a decoded []*T handed to another function (which will dereference the elements and their
+// pointer fields): every element — and every pointer-to-struct field of an element — must have been tested against nil
+// in a loop over the slice that the hand-over lies behind.
+func c18DecodedSliceEscapes(c *Ctx, f *ssa.Function, um ssa.CallInstruction, al *ssa.Alloc, sl *types.Slice, mk func(kind string, in ssa.Instruction, expr string) *panicSite) {
+	ept, ok := sl.Elem().Underlying().(*types.Pointer)
+	if !ok {
+		return
+	}
+	est, ok := ept.Elem().Underlying().(*types.Struct)
+	if !ok {
+		return
+	}
+	// escapes of the loaded slice value to module/dependency calls (not builtins)
+	var escapes []ssa.Instruction
+	if al.Referrers() != nil {
+		for _, r := range *al.Referrers() {
+			ld, isLd := r.(*ssa.UnOp)
+			if !isLd || ld.Referrers() == nil {
+				continue
+			}
+			for _, rr := range *ld.Referrers() {
+				if ci, isCall := rr.(ssa.CallInstruction); isCall {
+					if _, isB := ci.Common().Value.(*ssa.Builtin); !isB {
+						escapes = append(escapes, ci.(ssa.Instruction))
+					}
+				}
+			}
+		}
+	}
+	if len(escapes) == 0 {
+		return
+	}
+	base := npath(al)
+	want := []string{base + "[i]"}
+	for i := 0; i < est.NumFields(); i++ {
+		if pt, isPtr := est.Field(i).Type().Underlying().(*types.Pointer); isPtr && est.Field(i).Exported() {
+			if _, isStruct := pt.Elem().Underlying().(*types.Struct); isStruct {
+				want = append(want, base+"[i]."+est.Field(i).Name())
+			}
+		}
+	}
+	for _, esc := range escapes {
+		s := mk("decoded-escape", esc, trimPath(base)+"[*]")
+		missing := ""
+		for _, w := range want {
+			found := false
+			for _, cd := range ssax.Conds(f) {
+				if cd.Op != token.EQL && cd.Op != token.NEQ {
+					continue
+				}
+				for _, pr := range [][2]ssa.Value{{cd.X, cd.Y}, {cd.Y, cd.X}} {
+					if ssax.IsNilConst(ssax.Resolve(pr[1])) && npath(pr[0]) == w {
+						// the nil edge must not lead to the hand-over
+						ne, _ := cd.EdgeWhere(token.EQL)
+						first := ne.From.Succs[ne.Succ].Instrs[0]
+						if first != esc && !ssax.ReachableFrom(f, first, esc, nil, nil) {
+							found = true
+						}
+					}
+				}
+			}
+			if !found {
+				missing = w
+			}
+		}
+		if missing == "" {
+			s.Status, s.Why = "proved", "every element (and its pointer fields) is tested against nil before the list is handed on"
+		} else {
+			s.Status, s.Why = "unproved", "the decoded list is handed on without a nil test of "+trimPath(missing)+" (a JSON null / missing member): the receiver dereferences it"
+		}
+	}
 }
 
 func trimPath(s string) string {
